@@ -129,6 +129,9 @@ Proof.
   rewrite !le_cases. intros [H1| ->] [H2| ->]; auto. left. eapply lt_trans; eauto.
 Qed.
 
+Lemma lt_le_trans' a b c : a <f b -> b <=f c -> a <f c.
+Proof. intros H1. rewrite le_cases. intros [H2| <-]; auto. eapply lt_trans; eauto. Qed.
+
 Lemma le_lt_trans a b c : a <=f b -> b <f c -> a <f c.
 Proof. rewrite le_cases. intros [H1| ->] H2; auto. eapply lt_trans; eauto. Qed.
 
@@ -328,7 +331,7 @@ Lemma fnonzero_spec s : fnonzero O s = true <-> s <> zero.
 Proof.
   unfold fnonzero. rewrite orb_true_iff. split.
   - intros [H|H] ->; rewrite lt_irrefl in H; discriminate.
-  - intros H. destruct (lt_total zero s) as [H1|[H1|H1]]; auto. congruence.
+  - intros H. destruct (lt_total zero s) as [H1|[H1|H1]]; auto; congruence.
 Qed.
 
 (* everything the code uses as a source *)
@@ -369,9 +372,9 @@ Proof.
       unfold k in Hv'. rewrite kept_nth in Hv'.
       assert (Hz : zero /f s = zero) by (field; exact Hnz).
       split; [lia|]. destruct (is_bad (nth j labels 0)).
-      { exfalso. rewrite Hz in Hv'. subst wj. rewrite lt_irrefl in Hpos. discriminate. }
+      { exfalso. rewrite Hv', Hz, lt_irrefl in Hpos. discriminate. }
       destruct (fltb O (nth j w zero) thr).
-      { exfalso. rewrite Hz in Hv'. subst wj. rewrite lt_irrefl in Hpos. discriminate. }
+      { exfalso. rewrite Hv', Hz, lt_irrefl in Hpos. discriminate. }
       repeat split; auto.
     + intros _. exact Hsum.
     + split.
@@ -497,5 +500,443 @@ Proof.
   - apply in_bad_positions. split; [lia | exact Hb].
 Qed.
 End Loop.
+Set Default Proof Using "Fth lt_irrefl lt_trans lt_total lt_add lt_mul".
+
+
+(* --- the public statement about a repaired row --------------------------- *)
+Lemma bad_row_convex thr (W : nat -> list F) labels (data : list (list F)) ns i :
+  length labels = length data ->
+  (forall p, length (W p) = length data) ->
+  (forall p v, In v (W p) -> zero <=f v) ->
+  (forall j, (j < length data)%nat -> length (nth j data []) = ns) ->
+  (i < length data)%nat -> is_bad (nth i labels 0) = true ->
+  let S := sources O thr labels (W i) in
+  let out := nth i (interpolate O thr W labels data) [] in
+  (forall j w, In (j, w) S ->
+     (j < length data)%nat /\ is_bad (nth j labels 0) = false /\ zero <f w /\
+     fltb O (nth j (W i) zero) thr = false) /\
+  (S <> [] -> fsum O (map snd S) = one) /\
+  length out = ns /\
+  (forall t, (t < ns)%nat -> nth t out zero = dot (fun j => nth t (nth j data []) zero) S) /\
+  (S = [] -> out = repeat zero ns) /\
+  (forall t lo hi, (t < ns)%nat -> S <> [] ->
+     (forall j w, In (j, w) S -> lo <=f nth t (nth j data []) zero /\ nth t (nth j data []) zero <=f hi) ->
+     lo <=f nth t out zero /\ nth t out zero <=f hi).
+Proof.
+  intros Hl HWl HW Hrect Hi Hb S out.
+  destruct (sources_spec thr labels (W i) (HW i)) as [Hs1 [Hs2 Hs3]]. fold S in Hs1, Hs2, Hs3.
+  assert (Hout : out = repair_row O thr labels (W i) data i).
+  { unfold out. apply interpolate_bad_row; auto. }
+  assert (Hsrc : forall j w, In (j, w) S -> (j < length data)%nat /\ is_bad (nth j labels 0) = false /\
+                 zero <f w /\ fltb O (nth j (W i) zero) thr = false).
+  { intros j w Hin. destruct (Hs1 j w Hin) as [H1 [H2 [H3 [H4 _]]]]. rewrite HWl in H1. auto. }
+  assert (Hrows : forall p, In p S -> length (nth (fst p) data []) = ns).
+  { intros [j w] Hin. apply Hrect. now destruct (Hsrc j w Hin). }
+  destruct (lincomb_spec S data ns Hrows) as [Hlen Hnth].
+  assert (Hrep : out = match S with [] => repeat zero ns | p :: l => lincomb O (p :: l) data ns end).
+  { rewrite Hout. unfold repair_row. fold S. rewrite (Hrect i Hi). reflexivity. }
+  assert (Hdot : forall t, (t < ns)%nat -> nth t out zero = dot (fun j => nth t (nth j data []) zero) S).
+  { intros t Ht. rewrite Hrep. destruct S as [|s0 S'] eqn:E.
+    - rewrite repeat_nth by exact Ht. reflexivity.
+    - apply Hnth, Ht. }
+  split; [exact Hsrc|]. split; [exact Hs2|]. split.
+  { rewrite Hrep. destruct S; [apply repeat_length | exact Hlen]. }
+  split; [exact Hdot|]. split.
+  { intros E. rewrite Hrep, E. reflexivity. }
+  intros t lo hi Ht Hne Hrange. rewrite (Hdot t Ht). specialize (Hs2 Hne). split.
+  - replace lo with (lo *f fsum O (map snd S)) by (rewrite Hs2; ring).
+    apply dot_lower. intros [j w] Hin. cbn [fst snd]. split.
+    + apply lt_le. now destruct (Hsrc j w Hin) as [_ [_ [H _]]].
+    + now destruct (Hrange j w Hin).
+  - replace hi with (hi *f fsum O (map snd S)) by (rewrite Hs2; ring).
+    apply dot_upper. intros [j w] Hin. cbn [fst snd]. split.
+    + apply lt_le. now destruct (Hsrc j w Hin) as [_ [_ [H _]]].
+    + now destruct (Hrange j w Hin).
+Qed.
+
+(* a bad channel has no source exactly when every channel is dead/noisy or has a raw weight < thr
+   (for thr > 0); then its row is zero *)
+Lemma no_source_iff thr labels (w : list F) :
+  (forall v, In v w -> zero <=f v) -> zero <f thr ->
+  (sources O thr labels w = [] <->
+   forall j, (j < length w)%nat -> is_bad (nth j labels 0) = true \/ nth j w zero <f thr).
+Proof.
+  intros Hw Hthr. destruct (sources_spec thr labels w Hw) as [_ [_ Hs3]]. rewrite Hs3. clear Hs3.
+  set (k := kept_weights O thr labels w).
+  assert (Hk : forall v, In v k -> zero <=f v) by (apply kept_nonneg; auto).
+  split.
+  - intros Hsum j Hj.
+    destruct (is_bad (nth j labels 0)) eqn:Eb; [now left|]. right.
+    destruct (fltb O (nth j w zero) thr) eqn:Et; [reflexivity|]. exfalso.
+    (* the kept weight at j is >= thr > 0, so the sum is > 0 *)
+    assert (Hkj : nth j k zero = nth j w zero) by (unfold k; rewrite kept_nth, Eb, Et; reflexivity).
+    assert (Hpos : zero <f nth j k zero) by (rewrite Hkj; eapply lt_le_trans'; eauto).
+    assert (Hjk : (j < length k)%nat) by (unfold k; rewrite kept_length; exact Hj).
+    destruct (nth_split k zero Hjk) as [l1 [l2 [Esplit _]]].
+    rewrite Esplit, fsum_app in Hsum. unfold fsum in Hsum at 2. cbn [fold_right] in Hsum. fold (fsum O l2) in Hsum.
+    assert (H1 : zero <=f fsum O l1).
+    { apply fsum_nonneg. intros v Hv. apply Hk. rewrite Esplit. apply in_or_app. now left. }
+    assert (H2 : zero <=f fsum O l2).
+    { apply fsum_nonneg. intros v Hv. apply Hk. rewrite Esplit. apply in_or_app. right. now right. }
+    assert (H3 : zero <=f (fsum O l1 +f fsum O l2)) by (apply nonneg_add; auto).
+    pose proof (le_add _ _ (nth j k zero) H3) as H4.
+    replace (zero +f nth j k zero) with (nth j k zero) in H4 by ring.
+    assert (E0 : fsum O l1 +f fsum O l2 +f nth j k zero = zero) by (etransitivity; [|exact Hsum]; ring).
+    rewrite E0 in H4.
+    congruence.
+  - intros Hall. unfold fsum.
+    assert (Hz : forall v, In v k -> v = zero).
+    { intros v Hv. destruct (In_nth _ _ zero Hv) as [j [Hj <-]]. unfold k in Hj. rewrite kept_length in Hj.
+      unfold k. rewrite kept_nth. destruct (Hall j Hj) as [H|H]; rewrite H; [reflexivity|].
+      now destruct (is_bad _). }
+    clear Hk. clearbody k. induction k as [|a k IH]; cbn [fold_right]; [reflexivity|].
+    rewrite IH by (intros; apply Hz; now right). rewrite (Hz a) by now left. ring.
+Qed.
 
 End OrderedField.
+Unset Default Proof Using.
+
+(* ---------------------------------------------------------------------- *)
+(* The recommendation block of detect_bad_channels                          *)
+
+Fixpoint sorted_gt (lo : Z) (l : list Z) : Prop :=
+  match l with [] => True | a :: r => lo < a /\ sorted_gt a r end.
+
+Lemma sorted_gt_all lo l : sorted_gt lo l -> forall e, In e l -> lo < e.
+Proof.
+  revert lo; induction l as [|a r IH]; intros lo H e He; [destruct He|].
+  destruct H as [H1 H2]. destruct He as [<-|He]; [exact H1|]. specialize (IH a H2 e He). lia.
+Qed.
+
+Lemma sorted_gt_weaken lo lo' l : lo' <= lo -> sorted_gt lo l -> sorted_gt lo' l.
+Proof. destruct l; cbn; [auto|]. intros H [H1 H2]. split; [lia|auto]. Qed.
+
+Lemma last_cons_cons {A} (a b : A) r d : last (a :: b :: r) d = last (b :: r) d.
+Proof. reflexivity. Qed.
+
+Lemma sorted_last x r : sorted_gt x r -> x <= last (x :: r) 0 /\ In (last (x :: r) 0) (x :: r) /\
+  forall e, In e (x :: r) -> e <= last (x :: r) 0.
+Proof.
+  revert x; induction r as [|y r IH]; intros x H.
+  - cbn. split; [lia|]. split; [now left|]. intros e [<-|[]]. lia.
+  - destruct H as [H1 H2]. rewrite last_cons_cons. destruct (IH y H2) as [I1 [I2 I3]].
+    split; [lia|]. split; [now right|]. intros e [<-|He]; [lia | now apply I3].
+Qed.
+
+Lemma where_from_in k0 m k :
+  In k (where_from k0 m) <-> k0 <= k /\ nth (Z.to_nat (k - k0)) m false = true.
+Proof.
+  revert k0; induction m as [|b m IH]; intros k0; cbn [where_from].
+  - split; [intros []|]. intros [_ H]. destruct (Z.to_nat (k - k0)); discriminate.
+  - rewrite in_app_iff, IH. split.
+    + intros [H|[H1 H2]].
+      * destruct b; [|destruct H]. destruct H as [<-|[]]. split; [lia|].
+        now replace (k0 - k0) with 0 by lia.
+      * split; [lia|]. replace (Z.to_nat (k - k0)) with (S (Z.to_nat (k - (k0 + 1)))) by lia. exact H2.
+    + intros [H1 H2]. destruct (Z.eq_dec k k0) as [->|Hne].
+      * left. replace (k0 - k0) with 0 in H2 by lia. cbn in H2. subst b. now left.
+      * right. split; [lia|].
+        replace (Z.to_nat (k - k0)) with (S (Z.to_nat (k - (k0 + 1)))) in H2 by lia. exact H2.
+Qed.
+
+Lemma where_from_sorted k0 m : sorted_gt (k0 - 1) (where_from k0 m).
+Proof.
+  revert k0; induction m as [|b m IH]; intros k0; cbn [where_from]; [exact I|].
+  specialize (IH (k0 + 1)). replace (k0 + 1 - 1) with k0 in IH by lia.
+  destruct b; cbn [app].
+  - split; [lia | exact IH].
+  - eapply sorted_gt_weaken; [|exact IH]. lia.
+Qed.
+
+Lemma where_from_lt k0 m k : In k (where_from k0 m) -> k < k0 + Z.of_nat (length m).
+Proof.
+  rewrite where_from_in. intros [H1 H2].
+  destruct (Z_lt_ge_dec k (k0 + Z.of_nat (length m))) as [|Hge]; [assumption|].
+  rewrite nth_overflow in H2 by lia. discriminate.
+Qed.
+
+(* the a-values of the cumsum/diff rule *)
+Definition avals (c : Z) (l : list Z) : list Z := cumsum_from c (map (fun d => d - 1) (diff l)).
+
+Lemma avals_cons2 c x y r : avals c (x :: y :: r) = (c + (y - x - 1)) :: avals (c + (y - x - 1)) (y :: r).
+Proof. reflexivity. Qed.
+
+Lemma fold_max_spec b l : let m := fold_right Z.max b l in
+  b <= m /\ (forall a, In a l -> a <= m) /\ (m = b \/ In m l).
+Proof.
+  induction l as [|a l IH]; cbn.
+  - split; [lia|]. split; [intros a []|now left].
+  - destruct IH as [I1 [I2 I3]]. split; [lia|]. split.
+    + intros e [<-|He]; [lia|]. specialize (I2 e He). lia.
+    + destruct (Z.max_spec a (fold_right Z.max b l)) as [[_ ->]|[_ ->]]; [|right; now left].
+      destruct I3 as [->|I3]; [now left | right; now right].
+Qed.
+
+Lemma zmax_spec l : l <> [] -> In (zmax_list l) l /\ forall a, In a l -> a <= zmax_list l.
+Proof.
+  destruct l as [|x l]; [congruence|]. intros _. unfold zmax_list. cbn [hd].
+  destruct (fold_max_spec x (x :: l)) as [H1 [H2 H3]]. split; [|exact H2].
+  destruct H3 as [->|H3]; [now left | exact H3].
+Qed.
+
+Lemma zmax_unique l m : In m l -> (forall a, In a l -> a <= m) -> zmax_list l = m.
+Proof.
+  intros Hin Hle. assert (Hne : l <> []) by (intros ->; destruct Hin).
+  destruct (zmax_spec l Hne) as [H1 H2]. specialize (H2 m Hin). specialize (Hle _ H1). lia.
+Qed.
+
+Lemma runs_lemma : forall r x c, sorted_gt x r ->
+  let l := x :: r in let A := c :: avals c l in let M := zmax_list A in
+  length A = length l /\ c <= M /\
+  forall o a, In (o, a) (combine l A) ->
+    c <= a /\ x <= o /\ (a = M <-> forall j, o <= j <= last l 0 -> In j l).
+Proof.
+  induction r as [|y r IH]; intros x c Hs l A M.
+  - subst l A M. cbn. split; [reflexivity|]. split; [lia|].
+    intros o a [E|[]]. inversion E; subst. split; [lia|]. split; [lia|].
+    split; [|intros; lia]. intros _ j Hj. left. lia.
+  - destruct Hs as [Hxy Hs]. set (c' := c + (y - x - 1)).
+    specialize (IH y c' Hs). cbn zeta in IH. destruct IH as [IHlen [IHc IH]].
+    set (A' := c' :: avals c' (y :: r)) in *. set (M' := zmax_list A') in *.
+    assert (EA : A = c :: A') by (subst A A' l c'; now rewrite avals_cons2).
+    destruct (zmax_spec A' ltac:(subst A'; discriminate)) as [HM1 HM2].
+    assert (EM : M = M').
+    { subst M. rewrite EA. apply zmax_unique; [now right|]. intros a [<-|Ha]; [lia | now apply HM2]. }
+    destruct (sorted_last y r Hs) as [HL1 [HL2 HL3]].
+    split; [rewrite EA; cbn [length]; subst l; cbn [length]; now rewrite IHlen|].
+    split; [lia|]. rewrite EM. subst l. rewrite last_cons_cons. rewrite EA. cbn [combine].
+    intros o a [E|Hin].
+    + inversion E; subst o a. split; [lia|]. split; [lia|]. split.
+      * intros HcM. assert (c' = c) by lia. assert (y = x + 1) by lia.
+        assert (Hhead : In (y, c') (combine (y :: r) A')) by (subst A'; now left).
+        destruct (IH _ _ Hhead) as [_ [_ [Hd _]]]. specialize (Hd ltac:(lia)).
+        intros j Hj. destruct (Z.eq_dec j x) as [->|Hne]; [now left|]. right. apply Hd. lia.
+      * intros Hall.
+        assert (Hx1 : In (x + 1) (x :: y :: r)) by (apply Hall; lia).
+        destruct Hx1 as [Hx1|Hx1]; [lia|].
+        assert (y <= x + 1).
+        { destruct Hx1 as [->|Hx1]; [lia|]. pose proof (sorted_gt_all _ _ Hs _ Hx1). lia. }
+        assert (Hy : y = x + 1) by lia.
+        assert (Hhead : In (y, c') (combine (y :: r) A')) by (subst A'; now left).
+        destruct (IH _ _ Hhead) as [_ [_ [_ Hu]]].
+        assert (c' = M'); [|lia]. apply Hu. intros j Hj.
+        destruct (Hall j ltac:(lia)) as [Hjx|Hjin]; [lia | exact Hjin].
+    + destruct (IH _ _ Hin) as [I1 [I2 I3]]. split; [lia|]. split; [lia|].
+      rewrite I3. split; intros Hd j Hj.
+      * right. apply Hd, Hj.
+      * destruct (Hd j Hj) as [Hjx|Hjin]; [lia | exact Hjin].
+Qed.
+
+Lemma in_combine_ex {A B} (l : list A) (m : list B) x :
+  length m = length l -> In x l -> exists y, In (x, y) (combine l m).
+Proof.
+  revert m; induction l as [|a l IH]; intros m Hlen Hin; [destruct Hin|].
+  destruct m as [|b m]; [cbn in Hlen; lia|]. cbn in Hlen, Hin |- *.
+  destruct Hin as [->|Hin]; [exists b; now left|].
+  destruct (IH m ltac:(lia) Hin) as [y Hy]. exists y. now right.
+Qed.
+
+Lemma top_block_spec nc lo iout i :
+  sorted_gt lo iout -> (forall e, In e iout -> e < nc) ->
+  (In i (top_block nc iout) <-> In i iout /\ forall j, i <= j <= nc - 1 -> In j iout).
+Proof.
+  intros Hs Hlt. destruct iout as [|x r].
+  - cbn. split; [intros [] | intros [[] _]].
+  - destruct Hs as [_ Hs]. destruct (sorted_last x r Hs) as [HL1 [HL2 HL3]].
+    unfold top_block. destruct (last (x :: r) 0 =? nc - 1) eqn:El.
+    + apply Z.eqb_eq in El.
+      change (cumsum_from 0 (0 :: map (fun d => d - 1) (diff (x :: r)))) with (0 :: avals 0 (x :: r)).
+      destruct (runs_lemma r x 0 Hs) as [Hlen [_ Hp]]. cbn zeta in Hp.
+      rewrite in_map_iff. split.
+      * intros [[o a] [Ho Hin]]. cbn in Ho. subst o. apply filter_In in Hin. destruct Hin as [Hin Ha].
+        cbn [snd] in Ha. apply Z.eqb_eq in Ha. destruct (Hp _ _ Hin) as [_ [_ Hiff]].
+        split; [eapply in_combine_l; eauto|]. rewrite <- El. now apply Hiff.
+      * intros [Hin Hall]. destruct (in_combine_ex (x :: r) (0 :: avals 0 (x :: r)) i Hlen Hin) as [a Ha].
+        exists (i, a). split; [reflexivity|]. apply filter_In. split; [exact Ha|]. cbn [snd].
+        apply Z.eqb_eq. destruct (Hp _ _ Ha) as [_ [_ Hiff]]. apply Hiff. now rewrite El.
+    + apply Z.eqb_neq in El. split; [intros []|]. intros [Hin Hall]. exfalso.
+      pose proof (Hlt _ Hin). pose proof (Hlt _ HL2).
+      specialize (Hall (nc - 1) ltac:(lia)). specialize (HL3 _ Hall). lia.
+Qed.
+
+(* ichannels[idx] = v *)
+Lemma existsb_eqb_in k idx : existsb (Z.eqb k) idx = true <-> In k idx.
+Proof.
+  rewrite existsb_exists. split; [intros [x [H1 H2]]; apply Z.eqb_eq in H2; now subst | intros H; exists k; split; [auto | apply Z.eqb_refl]].
+Qed.
+
+Lemma assign_from_spec idx v : forall l k0,
+  length (assign_from k0 idx v l) = length l /\
+  forall i d, (i < length l)%nat ->
+    nth i (assign_from k0 idx v l) d = if existsb (Z.eqb (k0 + Z.of_nat i)) idx then v else nth i l d.
+Proof.
+  induction l as [|a l IH]; intros k0; unfold assign_from; cbn [map where_from app combine length].
+  - split; [reflexivity|]. intros; lia.
+  - destruct (IH (k0 + 1)) as [I1 I2]. unfold assign_from in I1, I2. split; [now rewrite I1|].
+    intros [|i] d Hi; cbn [nth fst snd].
+    + now replace (k0 + Z.of_nat 0) with k0 by lia.
+    + rewrite I2 by lia. now replace (k0 + 1 + Z.of_nat i) with (k0 + Z.of_nat (S i)) by lia.
+Qed.
+
+Lemma assign_nth idx v l i d : (i < length l)%nat ->
+  nth i (assign idx v l) d = if existsb (Z.eqb (Z.of_nat i)) idx then v else nth i l d.
+Proof. intros H. unfold assign. destruct (assign_from_spec idx v l 0) as [_ H2]. now rewrite H2. Qed.
+
+Lemma assign_length idx v l : length (assign idx v l) = length l.
+Proof. unfold assign. now destruct (assign_from_spec idx v l 0). Qed.
+
+Lemma in_where_nat m i : In (Z.of_nat i) (where_ m) <-> nth i m false = true.
+Proof.
+  unfold where_. rewrite where_from_in. replace (Z.to_nat (Z.of_nat i - 0)) with i by lia.
+  split; [now intros [_ H] | intros H; split; [lia | exact H]].
+Qed.
+
+Lemma existsb_where m i : existsb (Z.eqb (Z.of_nat i)) (where_ m) = nth i m false.
+Proof.
+  destruct (nth i m false) eqn:E.
+  - apply existsb_eqb_in, in_where_nat, E.
+  - destruct (existsb _ _) eqn:E2; [|reflexivity]. apply existsb_eqb_in, in_where_nat in E2. congruence.
+Qed.
+
+Lemma map2_nth_g {A B C} (g : A -> B -> C) a b t da db dc :
+  (t < length a)%nat -> (t < length b)%nat ->
+  nth t (map2 g a b) dc = g (nth t a da) (nth t b db).
+Proof.
+  revert b t; induction a as [|x a IH]; intros [|y b] [|t] Ha Hb; cbn in *; try lia; auto.
+  apply IH; lia.
+Qed.
+
+Lemma map_nth_d {A B} (f : A -> B) l d db i : f d = db -> nth i (map f l) db = f (nth i l d).
+Proof. intros <-. apply map_nth. Qed.
+
+Section RuleProofs.
+Context {F : Type} (O : ops F).
+
+Lemma label_rule_spec sim_lo sim_hi psd_thr out_thr (hf lf psd : list (option F)) i :
+  length psd = length hf -> (i < length hf)%nat ->
+  let noisy := flt O (Some psd_thr) (nth i psd None) || flt O (Some sim_hi) (nth i hf None) in
+  let dead := flt O (nth i hf None) (Some sim_lo) in
+  let top := existsb (Z.eqb (Z.of_nat i))
+               (top_block (Z.of_nat (length hf)) (ioutside_raw O out_thr lf)) in
+  length (label_rule O sim_lo sim_hi psd_thr out_thr hf lf psd) = length hf /\
+  nth i (label_rule O sim_lo sim_hi psd_thr out_thr hf lf psd) 0 =
+    if noisy then 2 else if dead then 1 else if top then 3 else 0.
+Proof.
+  intros Hp Hi noisy dead top. unfold label_rule.
+  split; [now rewrite !assign_length, repeat_length|].
+  rewrite assign_nth by now rewrite !assign_length, repeat_length.
+  rewrite assign_nth by now rewrite !assign_length, repeat_length.
+  rewrite assign_nth by now rewrite repeat_length.
+  unfold inoisy, idead. rewrite !existsb_where.
+  assert (E1 : nth i (map2 orb (map (fun p => flt O (Some psd_thr) p) psd)
+                               (map (fun x => flt O (Some sim_hi) x) hf)) false = noisy).
+  { rewrite (map2_nth_g orb _ _ i false false false) by (rewrite map_length; lia).
+    unfold noisy. f_equal.
+    - apply (map_nth_d (fun p => flt O (Some psd_thr) p) psd None false i eq_refl).
+    - apply (map_nth_d (fun x => flt O (Some sim_hi) x) hf None false i eq_refl). }
+  assert (E2 : nth i (map (fun x => flt O x (Some sim_lo)) hf) false = dead).
+  { unfold dead. apply (map_nth_d (fun x => flt O x (Some sim_lo)) hf None false i eq_refl). }
+  rewrite E1, E2. fold top.
+  destruct noisy; [reflexivity|]. destruct dead; [reflexivity|]. destruct top; [reflexivity|].
+  clear. revert i. induction (length hf) as [|n IH]; intros [|i]; cbn; auto.
+Qed.
+
+(* label 3 candidates = the maximal run of channels below the threshold that ends at the last channel *)
+Lemma outside_top_block out_thr (lf : list (option F)) i :
+  let nc := Z.of_nat (length lf) in
+  In i (top_block nc (ioutside_raw O out_thr lf)) <->
+  0 <= i < nc /\ forall j, i <= j < nc -> flt O (nth (Z.to_nat j) lf None) (Some out_thr) = true.
+Proof.
+  intros nc. unfold ioutside_raw, where_.
+  set (m := map (fun x => flt O x (Some out_thr)) lf).
+  assert (Hm : forall k, nth k m false = flt O (nth k lf None) (Some out_thr)).
+  { intros k. unfold m. apply (map_nth_d (fun x => flt O x (Some out_thr)) lf None false k eq_refl). }
+  assert (Hlen : Z.of_nat (length m) = nc) by (unfold m; now rewrite map_length).
+  rewrite (top_block_spec nc (0 - 1) (where_from 0 m) i (where_from_sorted 0 m)).
+  2:{ intros e He. apply where_from_lt in He. lia. }
+  split.
+  - intros [Hin Hall]. pose proof (where_from_lt _ _ _ Hin) as Hlt.
+    apply where_from_in in Hin. destruct Hin as [H0 _]. split; [lia|].
+    intros j Hj. specialize (Hall j ltac:(lia)). apply where_from_in in Hall.
+    destruct Hall as [_ Hall]. rewrite Hm in Hall. now replace (j - 0) with j in Hall by lia.
+  - intros [Hi Hall]. split.
+    + apply where_from_in. split; [lia|]. rewrite Hm. replace (i - 0) with i by lia. apply Hall. lia.
+    + intros j Hj. apply where_from_in. split; [lia|]. rewrite Hm. replace (j - 0) with j by lia.
+      apply Hall. lia.
+Qed.
+End RuleProofs.
+
+(* ---------------------------------------------------------------------- *)
+(* mode                                                                      *)
+Lemma count_nonneg v l : 0 <= count v l.
+Proof. unfold count. induction l as [|a l IH]; cbn; [lia|]. destruct (a =? v); lia. Qed.
+
+Lemma count_pos_in v l : In v l <-> 0 < count v l.
+Proof.
+  unfold count. induction l as [|a l IH]; cbn; [split; [intros []|lia]|].
+  pose proof (count_nonneg v l) as Hn. unfold count in Hn.
+  destruct (a =? v) eqn:E.
+  - apply Z.eqb_eq in E. split; [lia | intros _; now left].
+  - apply Z.eqb_neq in E. rewrite <- IH. split; [intros [H|H]; [congruence|auto] | now right].
+Qed.
+
+(* b is at least as good as v: more frequent, or as frequent and not larger *)
+Definition geq_key (l : list Z) (b v : Z) : Prop :=
+  count v l < count b l \/ (count v l = count b l /\ b <= v).
+
+Lemma geq_key_trans l a b c : geq_key l a b -> geq_key l b c -> geq_key l a c.
+Proof. unfold geq_key. lia. Qed.
+
+Lemma mode_fold_spec l : forall q best,
+  In best l -> (forall v, In v q -> In v l) ->
+  let m := fold_left (fun best v => if better l v best then v else best) q best in
+  In m l /\ geq_key l m best /\ (forall v, In v q -> geq_key l m v).
+Proof.
+  induction q as [|a q IH]; intros best Hb Hq; cbn [fold_left].
+  - split; [exact Hb|]. split; [right; lia|]. intros v [].
+  - cbn zeta. unfold better at 2.
+    destruct ((count best l <? count a l) || ((count a l =? count best l) && (a <? best))) eqn:E.
+    + assert (Hab : geq_key l a best).
+      { apply orb_true_iff in E. destruct E as [E|E].
+        - apply Z.ltb_lt in E. left; lia.
+        - apply andb_true_iff in E. destruct E as [E1 E2]. apply Z.eqb_eq in E1. apply Z.ltb_lt in E2.
+          right; lia. }
+      destruct (IH a (Hq a (or_introl eq_refl)) (fun v Hv => Hq v (or_intror Hv))) as [I1 [I2 I3]].
+      split; [exact I1|]. split; [eapply geq_key_trans; eauto|].
+      intros v [<-|Hv]; [exact I2 | now apply I3].
+    + assert (Hba : geq_key l best a).
+      { apply orb_false_iff in E. destruct E as [E1 E2]. apply Z.ltb_ge in E1.
+        apply andb_false_iff in E2. unfold geq_key.
+        destruct E2 as [E2|E2]; [apply Z.eqb_neq in E2 | apply Z.ltb_ge in E2]; lia. }
+      destruct (IH best Hb (fun v Hv => Hq v (or_intror Hv))) as [I1 [I2 I3]].
+      split; [exact I1|]. split; [exact I2|].
+      intros v [<-|Hv]; [eapply geq_key_trans; eauto | now apply I3].
+Qed.
+
+Lemma mode_spec l : l <> [] ->
+  In (mode l) l /\
+  forall v, count v l <= count (mode l) l /\ (count v l = count (mode l) l -> mode l <= v).
+Proof.
+  intros Hne. unfold mode.
+  assert (Hhd : In (hd 0 l) l) by (destruct l; [congruence | now left]).
+  destruct (mode_fold_spec l l (hd 0 l) Hhd (fun v H => H)) as [H1 [_ H3]].
+  split; [exact H1|]. intros v.
+  set (m := fold_left (fun best v0 => if better l v0 best then v0 else best) l (hd 0 l)) in *.
+  destruct (in_dec Z.eq_dec v l) as [Hin|Hnin].
+  - specialize (H3 v Hin). unfold geq_key in H3. lia.
+  - assert (count v l = 0).
+    { pose proof (count_nonneg v l). destruct (Z.eq_dec (count v l) 0); [auto|].
+      exfalso. apply Hnin. apply count_pos_in. lia. }
+    apply count_pos_in in H1. lia.
+Qed.
+
+Lemma cbin_labels_spec nc batches :
+  length (cbin_labels nc batches) = nc /\
+  forall c, (c < nc)%nat ->
+    nth c (cbin_labels nc batches) 0 = mode (map (fun b => nth c b 0) batches).
+Proof.
+  unfold cbin_labels. split; [now rewrite map_length, seq_length|].
+  intros c Hc. rewrite (nth_indep _ 0 ((fun c0 => mode (map (fun b => nth c0 b 0) batches)) 0%nat))
+    by now rewrite map_length, seq_length.
+  rewrite map_nth, seq_nth by exact Hc. reflexivity.
+Qed.
